@@ -26,6 +26,9 @@ Compound kinds:
 import itertools
 
 
+DIRECTIVE_KEYS = ('maximum_iterations', 'parallel_iterations')
+
+
 class Menu(object):
   def __init__(self, name, simple, compound, vars_=('x', 'y'), depth=3, for_targets=('i',), ret=('x', None),
                raise_in_handler=True):
@@ -209,7 +212,8 @@ class Render(object):
 
   def loop_directive(self, ind, site):
     if self.directives:
-      self.emit(ind, 'setopts(maximum_iterations=%d)' % (1000 + site))
+      # the keyword alternates between loops, so that arguments leaking from one directive into another are visible
+      self.emit(ind, 'setopts(%s=%d)' % (DIRECTIVE_KEYS[site % 2], 1000 + site))
 
   def new(self):
     self.site += 1
